@@ -19,6 +19,7 @@ You can obtain one at http://mozilla.org/MPL/2.0/.
 
 #include "libfive/render/axes.hpp"
 #include "libfive/eval/interval.hpp"
+#include "libfive/verif.hpp"
 
 namespace libfive {
 
@@ -267,6 +268,7 @@ std::unique_ptr<typename M::Output> Dual<N>::walk_(
     if (settings.progress_handler) {
         settings.progress_handler->nextPhase(t.size() + 1);
     }
+    LIBFIVE_VERIF_POINT(verif::SITE_DUAL_ANNOUNCE, t.size() + 1, 0, t.get());
 
     std::vector<std::future<void>> futures;
     futures.resize(settings.workers);
@@ -289,12 +291,16 @@ std::unique_ptr<typename M::Output> Dual<N>::walk_(
 
     // Handle the top tree edges (only used for simplex meshing)
     if (M::needsTopEdges()) {
+        LIBFIVE_VERIF_POINT(verif::SITE_RENDER_PHASE, verif::PHASE_TOP_EDGES, 0);
         auto m = MesherFactory(breps[0], 0);
         Dual<N>::handleTopEdges(t.get(), m);
+        LIBFIVE_VERIF_POINT(verif::SITE_RENDER_PHASE, verif::PHASE_TOP_EDGES, 1);
     }
 
+    LIBFIVE_VERIF_POINT(verif::SITE_RENDER_PHASE, verif::PHASE_COLLECT, 0);
     auto out = std::make_unique<typename M::Output>();
     out->collect(breps);
+    LIBFIVE_VERIF_POINT(verif::SITE_RENDER_PHASE, verif::PHASE_COLLECT, 1);
     return out;
 }
 
@@ -338,14 +344,17 @@ void Dual<N>::run(V& v,
             continue;
         }
 
+        LIBFIVE_VERIF_POINT(verif::SITE_DUAL_POP, t->isBranch() ? 1 : 0, 0, t);
         if (t->isBranch())
         {
             // Recurse, calling the cell procedure for every child
             for (const auto& c_ : t->children)
             {
                 const auto c = c_.load();
+                LIBFIVE_VERIF_POINT(verif::SITE_DUAL_PUSH, 0, 0, c);
                 if (!tasks.bounded_push(c)) {
                     local.push(c);
+                    LIBFIVE_VERIF_POINT(verif::SITE_DUAL_PUSH_LOCAL, 0, 0, c);
                 }
             }
             continue;
@@ -357,20 +366,26 @@ void Dual<N>::run(V& v,
             continue;
         }
 
+        LIBFIVE_VERIF_POINT(verif::SITE_DUAL_LEAF, 0, 0, t);
         if (settings.progress_handler) {
             settings.progress_handler->tick();
+            LIBFIVE_VERIF_POINT(verif::SITE_DUAL_TICK, 1, 0, t);
         }
 
         for (t = t->parent; t && t->pending-- == 0; t = t->parent)
         {
+            LIBFIVE_VERIF_POINT(verif::SITE_DUAL_PENDING, 1, 0, t);
             // Do the actual DC work (specialized for N = 2 or 3)
             Dual<N>::work(t, v);
 
             // Report trees as completed
             if (settings.progress_handler) {
                 settings.progress_handler->tick();
+                LIBFIVE_VERIF_POINT(verif::SITE_DUAL_TICK, 1, 1, t);
             }
         }
+        LIBFIVE_VERIF_ONLY(if (t != nullptr) {
+            verif::point(verif::SITE_DUAL_PENDING, 0, 0, t); })
 
         // Termination condition:  if we've ended up pointing at the parent
         // of the tree's root (which is nullptr), then we're done and break
@@ -381,6 +396,7 @@ void Dual<N>::run(V& v,
 
     // If we've broken out of the loop, then we should set the done flag
     // so that other worker threads also terminate.
+    LIBFIVE_VERIF_POINT(verif::SITE_DUAL_EXIT, settings.cancel.load() ? 1 : 0, done.load() ? 1 : 0);
     done.store(true);
 }
 
